@@ -131,6 +131,9 @@ func judgeDivider(c divCase) (msg string, maxDevOverN float64) {
 
 func genPrioList(rng *rand.Rand, maxN int, maxMag uint) []uint {
 	n := 1 + rng.IntN(maxN)
+	if uint(n) > maxMag {
+		n = int(maxMag)
+	}
 	set := map[uint]bool{}
 	for len(set) < n {
 		var p uint
